@@ -78,6 +78,31 @@ impl View {
                 }
             }
         }
+        // within one message: every group element (re-randomised signature, commitment, commitment to the commitment
+        // scalars) is made with fresh randomness, so no two of them may coincide (response scalars of linked slots are
+        // equal by design and are not compared here)
+        for i in 0..at.len() {
+            if exempt(&at[i].path) || !(at[i].kind == sx::K_G1 || at[i].kind == sx::K_G2) {
+                continue;
+            }
+            for j in (i + 1)..at.len() {
+                if at[j].kind != at[i].kind || exempt(&at[j].path) {
+                    continue;
+                }
+                n_pairs += 1;
+                if at[i].term() == at[j].term() || sx::shadow_of(at[i].term()) == sx::shadow_of(at[j].term()) {
+                    let f = eq(Scalar::from_term(at[i].term()), Scalar::from_term(at[j].term()));
+                    if eng::valid_unexpected(&format!("C14 {}: elements {} and {} of one message equal for every randomness?", what, at[i].path, at[j].path), &eng::hyps(), &f) {
+                        eng::finding(
+                            &format!("C14 value-repeated-within-message {}.{}", what, at[j].path),
+                            &format!("{}: {} repeats {} (not re-randomised / one builder used twice)", what, at[j].path, at[i].path),
+                            None,
+                            json!({"kind": "model"}),
+                        );
+                    }
+                }
+            }
+        }
         // one solver-confirmed witness for the whole batch of "differs" facts (constructive: the shadow assignment)
         // (on a path that deviates from the shadow randomness the shadow assignment is not a model of the path: there only
         //  the "equal for every randomness" queries above are meaningful)
@@ -116,8 +141,19 @@ fn masks(view: &View, what: &str, c: Scalar, pairs: Vec<(String, Scalar, Scalar)
             eng::finding(&format!("C14 response-unmasked {}.{}", what, nm), &format!("the response scalar {} equals challenge * secret: the secret is handed to the merchant", nm), None, json!({"kind":"model"}));
             continue;
         }
+        // a hidden value that is the constant 0 (an emptied balance) makes the response equal to its own mask: z = k.
+        // The response is in the merchant's view by construction; that is not a disclosure of the mask of a secret.
+        if matches!(sx::node_of(s.term()), Node::Const(c0) if c0 == fq::ZERO) {
+            continue;
+        }
         let sm = mask.shadow();
         for v in &view.seen {
+            // responses of the same message are related to each other by public linear relations (z_old - z_new = c * amount,
+            // equal slots share one commitment scalar): a mask that coincides with a sibling response when the other
+            // hidden value happens to be 0 discloses nothing.  What matters is a mask already known from elsewhere.
+            if v.what.starts_with(what) {
+                continue;
+            }
             if sx::shadow_of(v.term) == sm {
                 if eng::valid_unexpected(&format!("C14 {}: mask of {} equals {} for every randomness?", what, nm, v.what), &eng::hyps(), &eq(mask, Scalar::from_term(v.term))) {
                     eng::finding(&format!("C14 response-mask-public {}.{}", what, nm), &format!("the mask of response {} is {}, known to the merchant", nm, v.what), None, json!({"kind":"model"}));
@@ -168,7 +204,10 @@ fn history_path(seed: u64, payments: usize) {
         let cid = channel_id(&w, &mut rng, b"m", format!("customer{}", ch).as_bytes());
         let tag = format!("ch{}", ch);
         sx::set_label("cust:requested");
-        let (req, proof) = CRequested::new(&mut rng, &w.cust, cid, mb(50), cb(100), &ctx);
+        // channel 1 starts with a customer balance of 7: its first payment (7) empties it, so the messages of a customer
+        // whose hidden new balance is exactly zero are in the view as well
+        let cbal0: u64 = if ch == 0 { 100 } else { 7 };
+        let (req, proof) = CRequested::new(&mut rng, &w.cust, cid, mb(50), cb(cbal0), &ctx);
         let secrets = secrets_of("requested", &req);
         view.customer_message(&format!("{}.establish_proof", tag), &proof, &none, &secrets, &|_, _| false);
         // masks of the establish proof
@@ -187,7 +226,7 @@ fn history_path(seed: u64, payments: usize) {
             ]);
         }
         sx::set_label("merch:initialize");
-        let (closing, vbs) = w.merchant.initialize(&mut rng, &cid, cb(100), mb(50), proof, &ctx).expect("establish");
+        let (closing, vbs) = w.merchant.initialize(&mut rng, &cid, cb(cbal0), mb(50), proof, &ctx).expect("establish");
         view.add(&format!("{}.closing_signature", tag), &closing);
         sx::set_label("cust:complete");
         let inactive = req.complete(closing, &w.cust).ok().expect("complete");
